@@ -13,7 +13,7 @@ Fixpoint pure_b (n:nat) (e:expr) {struct n} : bool :=
   | ECall _ (S _) _ _ => true
   | EBin _ a b | EEq _ a b => pure_b n a && pure_b n b
   | ENot a | EField a _ => pure_b n a
-  | ETuple es | ERecord _ _ es | ESlice es => forallb (pure_b n) es
+  | ETuple es | ERecord _ _ _ es | ESlice es => forallb (pure_b n) es
   | ECtor _ _ None => true
   | ECtor _ _ (Some a) => pure_b n a
   | _ => false
@@ -26,6 +26,10 @@ Fixpoint str_in (x:string) (l:list string) : bool :=
   match l with [] => false | y :: r => String.eqb x y || str_in x r end.
 Fixpoint nodup_b (l:list string) : bool :=
   match l with [] => true | x :: r => negb (str_in x r) && nodup_b r end.
+
+Definition fields_ok_b (written decl:list string) : bool :=
+  nodup_b written && nodup_b decl && Nat.eqb (List.length written) (List.length decl) &&
+  forallb (fun f => str_in f decl) written.
 
 Definition ctor_declared_b (unions:list udecl) (u c:string) (p:bool) : bool :=
   existsb (fun d : udecl => String.eqb (fst d) u &&
@@ -52,7 +56,7 @@ Fixpoint wfe_b (n:nat) (e:expr) {struct n} : bool :=
   | EPipeCall a f args _ => wfe_b n a && user_b f && forallb (wfe_b n) args
   | EPipeExt a fn args _ => wfe_b n a && src_fn fn && forallb (wfe_b n) args
   | ETuple es => forallb (wfe_b n) es && two_or_three_b (List.length es)
-  | ERecord _ _ es => forallb (wfe_b n) es
+  | ERecord _ decl fields es => forallb (wfe_b n) es && fields_ok_b fields decl
   | EField a _ => wfe_b n a
   | ECtor u c None => ctor_declared_b unions u c false
   | ECtor u c (Some a) => ctor_declared_b unions u c true && wfe_b n a
@@ -126,6 +130,20 @@ Proof.
   apply str_in_ok. destruct (str_in x l); [discriminate|reflexivity].
 Qed.
 
+Lemma str_in_true x l : str_in x l = true -> In x l.
+Proof.
+  induction l as [|y l IH]; cbn; intros H; [discriminate|].
+  apply orb_true_iff in H. destruct H as [E|H]; [apply String.eqb_eq in E; left; auto|right; auto].
+Qed.
+Lemma fields_ok_b_ok w dcl : fields_ok_b w dcl = true -> fields_ok w dcl.
+Proof.
+  unfold fields_ok_b, fields_ok. intros H.
+  repeat match goal with Hc : _ && _ = true |- _ => apply andb_true_iff in Hc; destruct Hc end.
+  repeat split; auto using nodup_b_ok.
+  - apply Nat.eqb_eq; assumption.
+  - intros x I. apply str_in_true. match goal with Hf : forallb _ w = true |- _ => rewrite forallb_forall in Hf; apply Hf; exact I end.
+Qed.
+
 Lemma ctor_declared_b_ok us u c p : ctor_declared_b us u c p = true -> ctor_declared us u c p.
 Proof.
   unfold ctor_declared_b, ctor_declared. intros H. apply existsb_exists in H.
@@ -168,7 +186,7 @@ Proof.
     + constructor; auto using user_b_ok.
     + constructor; auto.
     + constructor; auto using two_or_three_b_ok.
-    + constructor; auto.
+    + constructor; auto using fields_ok_b_ok.
     + constructor; auto.
     + destruct arg.
       * apply andb_true_iff in H; destruct H. constructor; auto using ctor_declared_b_ok.
